@@ -127,7 +127,7 @@ Theorem start_item_lex : forall name decls attrs b cu tk tn ta rest o k,
     xsteps (mkM b XData false cu false None tk tn ta [] [] (SM.render_item (SM.IStart name decls attrs) ++ rest) o k)
            (mkM b XData false 62 false None TStartTag [] [] [] [] rest o' k') /\
     otoks o' = TTag TStartTag (SM.qual name) false tas false
-               :: rev (tag_errs_of (XRoundTrip.item_raws decls attrs)) ++ otoks o /\
+               :: rev (tag_errs_of (SM.qual name) (XRoundTrip.item_raws decls attrs)) ++ otoks o /\
     TM.tokenize (SM.item_rtoken (SM.IStart name decls attrs)) =
     TM.TTag TM.StartTag (TM.process_qname (SM.qual name)) (map conv_attr tas)
             (SM.qual name, XRoundTrip.item_raws decls attrs).
@@ -148,7 +148,7 @@ Theorem end_item_lex : forall name b cu tk tn ta rest o k,
   exists o' k',
     xsteps (mkM b XData false cu false None tk tn ta [] [] (SM.render_item (SM.IEnd name) ++ rest) o k)
            (mkM b XData false 62 false None TEndTag [] [] [] [] rest o' k') /\
-    otoks o' = TTag TEndTag (SM.qual name) false [] false :: otoks o /\
+    otoks o' = TTag TEndTag (SM.qual name) false [] false :: rev (bad_errs (SM.qual name)) ++ otoks o /\
     TM.tokenize (SM.item_rtoken (SM.IEnd name)) =
     TM.TTag TM.EndTag (TM.process_qname (SM.qual name)) [] (SM.qual name, []).
 Proof.
